@@ -85,7 +85,8 @@ class C13(Property):
     technique = "Lean 4 model + inverse-law proof; differential correspondence; exhaustive two-level names"
     exhaustive_note = ""
     quick_n = 25000
-    thorough_n = 300000
+    thorough_n = 200000
+    case_timeout = 120  # cases take milliseconds; the alarm only guards against a hung interpreter
 
     def _case(self, tree, starts):
         return {"tree": tree, "starts": starts}
@@ -167,6 +168,7 @@ class C13(Property):
             try:
                 p = el.fq_name()
             except Exception as e:  # noqa: BLE001
+                cm.reraise_timeout(e)
                 fq.append([n["id"], {"error": cm.exc_name(e)}])
                 continue
             fq.append([n["id"], cm.enc(p)])
@@ -174,6 +176,7 @@ class C13(Property):
                 try:
                     r = {"list": cm.labels(label, byid[s].find(p))}
                 except Exception as e:  # noqa: BLE001
+                    cm.reraise_timeout(e)
                     r = {"error": cm.exc_name(e)}
                 found.append([n["id"], s, r])
         return fq, found
@@ -194,6 +197,7 @@ class C13(Property):
             try:
                 p = el.fq_name()
             except Exception as e:  # noqa: BLE001
+                cm.reraise_timeout(e)
                 fails.append({"clause": "fq_name-raises", "element": n["id"], "expected": "a path", "observed": cm.exc_name(e)})
                 continue
             for s in case["starts"]:
@@ -202,6 +206,7 @@ class C13(Property):
                     ok = len(got) == 1 and got[0] is el
                     obs = cm.labels(label, got)
                 except Exception as e:  # noqa: BLE001
+                    cm.reraise_timeout(e)
                     ok, obs = False, cm.exc_name(e)
                 if not ok:
                     f = {"clause": "inverse", "element": n["id"], "start": s, "fq_name": cm.enc(p),
